@@ -49,7 +49,11 @@ ASSUMPTIONS = []
 EXPLANATION = (
     "PARTIAL: the model interleaves at _evaluate granularity; pre-emption inside C code / the GIL, and "
     "state outside the static inventory, are beyond it. C07_noninterference/_trace and C07_fresh are proved "
-    "for all schedules and operations; the tie is the real-thread schedule enumeration and the inventory.")
+    "for all schedules and operations, as are C07_n_threads (any number of threads), C07_serializable / "
+    "_same_projections / _steps_commute (whole global state = serial schedule), C07_result_alone / "
+    "_completion_alone (a finished thread's result, pass count and finishing point are its solo run's), "
+    "C07_warm_equals_fresh / _namespace_lazy (leftover tracker state is invisible to evaluate); "
+    "C07_shared_namespace_interferes / _shared_context_stack_interferes show the thread-locality is needed; the tie is the real-thread schedule enumeration and the inventory.")
 
 # ---- the model's list of state shared by all compilers of a process (Model/Threads.v header) ----
 THREAD_LOCAL = {                      # class attribute -> attributes its `ns` property creates
